@@ -2,5 +2,5 @@
 from . import storecheck
 
 REGISTRY = {}
-for p in ("C01", "C05", "C06", "C07"):
+for p in ("C01", "C05", "C06", "C07", "C08", "C09", "C20"):
     REGISTRY[p] = storecheck.run
